@@ -268,14 +268,61 @@ func checkBudget(r *Run, prog *Program, a *Anchors, pfx string) {
 		dispatched := false
 		if pn := prog.CG.Nodes[parseExpr]; pn != nil {
 			for _, e := range pn.Out {
-				if e.Callee.Func == fn && e.Site != nil && e.Site.Common().StaticCallee() == fn {
+				if e.Callee.Func == fn {
 					dispatched = true
+				}
+				// dispatch through a one-line method of the node (`expr.(parsable).parseWith(p)`): what such a method —
+				// entered from parseExpr only — calls is what parseExpr dispatches to
+				mid := e.Callee.Func
+				if mid == nil || mid == fn || mid == parseExpr || !prog.InModule(mid) {
+					continue
+				}
+				if rv := mid.Signature.Recv(); rv != nil && namedIs(rv.Type(), grammarPath, "parser") {
+					continue
+				}
+				onlyFromParseExpr := true
+				if mn := prog.CG.Nodes[mid]; mn != nil {
+					for _, in := range mn.In {
+						if in.Caller.Func != parseExpr && !isSynthetic(in.Caller.Func) {
+							onlyFromParseExpr = false
+						}
+					}
+					if onlyFromParseExpr {
+						for _, e2 := range mn.Out {
+							if e2.Callee.Func == fn {
+								dispatched = true
+							}
+						}
+					}
 				}
 			}
 		}
 		if dispatched && n != "parseExpr" {
 			engine = append(engine, n)
 			allowedCallers[n] = map[string]bool{"parseExpr": true}
+			// … or one of those one-line dispatch methods
+			if fnn := prog.CG.Nodes[fn]; fnn != nil {
+				for _, in := range fnn.In {
+					c := in.Caller.Func
+					if c == nil || c == parseExpr || isSynthetic(c) {
+						continue
+					}
+					if rv := c.Signature.Recv(); rv != nil && namedIs(rv.Type(), grammarPath, "parser") {
+						continue
+					}
+					only := true
+					if cn := prog.CG.Nodes[c]; cn != nil {
+						for _, in2 := range cn.In {
+							if in2.Caller.Func != parseExpr && !isSynthetic(in2.Caller.Func) {
+								only = false
+							}
+						}
+					}
+					if only {
+						allowedCallers[n][c.Name()] = true
+					}
+				}
+			}
 		}
 	}
 	allowedCallers["parseRule"] = map[string]bool{"parse": true, "parseRuleRefExpr": true}
